@@ -78,6 +78,14 @@ def gen_scenarios(tier):
                 (kind, [R(1), D(1)], [u1], [R(2), D(2), u2], [u2], [], []),
                 (kind, [R(1), D(1)], [u1, R(3), D(3)], [u2], [], [], []),
                 (kind, [R(1), D(1)], [u1], [u1, R(2), D(2)], [], [], [])]
+        if kind == "adapter":
+            X = ["unsub"]
+            # unsubscribe only after the unsubscribing thread's own registrations are gone and with no other thread
+            # registering (destroying the adapter under a registered callback would be a misuse of the API)
+            fam += [(kind, [R(1), D(1), X], [u1], [], [], [], []),
+                    (kind, [R(1), D(1), X], [u1], [u1], [], [], []),
+                    (kind, [X], [u1], [u1], [], [], []),
+                    (kind, [R(1), D(1), X], [u1], [], [Q], [], [])]
         if kind == "fused":
             fam += [(kind, [R(1), D(1)], [u1], [Q], [], [], []), (kind, [R(1), D(1)], [Q, u2], [R(2), D(2)], [], [Q], [])]
     fused = []
